@@ -303,7 +303,7 @@ theorem user_succ (n : Nat) (ih : AllSpec n) (name : String) (k : Nat) (s s' : S
         cases r with
         | error e => cases e <;> simp only [run_bind, run_restore, run_throw] at hex <;> cases hex
         | ok v =>
-          obtain ⟨hk, hv⟩ := ih.builtin name vs.reverse s2 s3 v hw2 (fun a ha => hvs a (List.mem_reverse.mp ha)) hb
+          obtain ⟨hk, hv⟩ := ih.builtin name vs.reverse s2 s3 v hw2 rfl (fun a ha => hvs a (List.mem_reverse.mp ha)) hb
           simp only [run_bind, run_pushData, run_get] at hex
           have ha3 : s3.addr = some (s.curfunc, s.pc + 1) :: s.addr := hk.same.addr
           have hgt : (captureOf { s with data := s.data.drop k }).addrSize < (some (s.curfunc, s.pc + 1) :: s.addr).length := by
@@ -447,7 +447,7 @@ theorem headD_vok {n : Nat} (args : List Val) (ha : ∀ a ∈ args, vok n a = tr
   | cons a r => exact ha a (by simp)
 
 theorem builtin_succ (hP : PrimOK) (hQ : QuoteOK) (n : Nat) (ih : AllSpec n) (name : String) (args : List Val) (s s' : St) (v : Val)
-    (hw : WF s) (ha : ∀ a ∈ args, vok s.fns.length a = true) (hex : (builtin (n + 1) name args).run s = (.ok v, s')) :
+    (hw : WF s) (hpc : s.pc = -1) (ha : ∀ a ∈ args, vok s.fns.length a = true) (hex : (builtin (n + 1) name args).run s = (.ok v, s')) :
     Kept s s' ∧ vok s'.fns.length v = true := by
   unfold VM.builtin at hex
   split at hex
@@ -508,11 +508,11 @@ theorem builtin_succ (hP : PrimOK) (hQ : QuoteOK) (n : Nat) (ih : AllSpec n) (na
         have hc := ha coll (by simp)
         split at hex
         · rename_i r
-          exact ih.apply f _ s s' v hw hf (heap_get_vok hw r) hex
+          exact ih.apply f _ s s' v hw hpc hf (heap_get_vok hw r) hex
         · rename_i a b
           split at hex
           · rename_i xs hxs
-            exact ih.apply f xs s s' v hw hf (listToArray_vok _ xs hxs hc) hex
+            exact ih.apply f xs s s' v hw hpc hf (listToArray_vok _ xs hxs hc) hex
           · simp only [run_err] at hex; cases hex
         · simp only [run_err] at hex; cases hex
     · simp only [run_err] at hex; cases hex
@@ -537,13 +537,13 @@ theorem builtin_succ (hP : PrimOK) (hQ : QuoteOK) (n : Nat) (ih : AllSpec n) (na
             dsimp only at hex
             rw [run_bind, run_get] at hex
             dsimp only at hex
-            obtain ⟨hk, hvs⟩ := ih.mapArr f r 0 _ s s1 vs hw hf hm
+            obtain ⟨hk, hvs⟩ := ih.mapArr f r 0 _ s s1 vs hw hpc hf hm
             simp only [run_bind, run_set, run_pure] at hex
             cases hex
             have hh := heapOK_alloc hk.wf.heap vs hvs
             exact ⟨hk.trans (kept_setHeap hk.wf _ hh), rfl⟩
         · rename_i a b
-          exact ih.mapList f _ s s' v hw hf hc hex
+          exact ih.mapList f _ s s' v hw hpc hf hc hex
         · simp only [run_err] at hex; cases hex
     · simp only [run_err] at hex; cases hex
   · -- the pure builtins
@@ -556,5 +556,190 @@ theorem builtin_succ (hP : PrimOK) (hQ : QuoteOK) (n : Nat) (ih : AllSpec n) (na
       obtain ⟨h1, h2⟩ := hP s.fns.length name args s.heap h' v ha hw.heap hp
       exact ⟨kept_setHeap hw h' h2, h1⟩
     · simp only [run_err] at hex; cases hex
+
+/-! ## `applyFn`, `mapArr`, `mapList` -/
+
+def lazyValObj (v : Val) : LazyObj := { e := .nilLit, stack := [], curfunc := 0, value := some v, isValue := true }
+
+def pushLazyVal (s : St) (v : Val) : St :=
+  { s with lazies := s.lazies ++ [lazyValObj v], data := some (.lazy s.lazies.length) :: s.data }
+
+def pushVal (s : St) (v : Val) : St := { s with data := some v :: s.data }
+
+/-- the operands of `Apply`, pushed (lazy positions wrapped in value lazies) -/
+theorem applyWrap_spec (fo : FnObj) : ∀ (args : List Val) (s : St) (i : Nat), WF s → (∀ a ∈ args, vok s.fns.length a = true) →
+    let s2 := (args.foldl (fun (p : St × Nat) v =>
+      if fo.isLazyCallArg p.2 then
+        ({ p.1 with lazies := p.1.lazies ++ [({ e := .nilLit, stack := [], curfunc := 0, value := some v, isValue := true } : LazyObj)],
+                    data := some (.lazy p.1.lazies.length) :: p.1.data }, p.2 + 1)
+      else ({ p.1 with data := some v :: p.1.data }, p.2 + 1)) (s, i)).1
+    WF s2 ∧ s2.data.map cellOf = List.replicate args.length .val ++ s.data.map cellOf ∧ s2.fns = s.fns ∧ s2.loops = s.loops ∧
+      s2.linear = s.linear ∧ s2.addr = s.addr ∧ s2.curfunc = s.curfunc ∧ s2.pc = s.pc ∧ s2.suspended = s.suspended
+  | [], s, i, hw, _ => ⟨hw, rfl, rfl, rfl, rfl, rfl, rfl, rfl, rfl⟩
+  | v :: rest, s, i, hw, ha => by
+    simp only [List.foldl_cons]
+    have hv := ha v (by simp)
+    split
+    · have hw1 : WF (pushLazyVal s v) := by
+        refine hw.grow (TExt.same rfl rfl) (fun j h1 h2 => absurd h2 (Nat.not_lt.mpr h1)) rfl rfl rfl ?_ ?_
+        · intro lz hlz
+          rcases List.mem_append.mp hlz with hm | hm
+          · left; exact hm
+          · right
+            simp at hm; subst hm
+            exact ⟨rfl, fun w hw' => by cases hw'; exact hv⟩
+        · intro c hcm
+          rcases List.mem_cons.mp hcm with rfl | hcm
+          · right; trivial
+          · left; exact hcm
+      obtain ⟨h1, h2, h3, h4, h5, h6, h7, h8, h9⟩ := applyWrap_spec fo rest (pushLazyVal s v) (i + 1) hw1 (fun a h => ha a (by simp [h]))
+      refine ⟨h1, h2.trans ?_, h3, h4, h5, h6, h7, h8, h9⟩
+      rw [List.length_cons, List.replicate_succ']
+      simp [cellOf, pushLazyVal]
+    · have hw1 : WF (pushVal s v) := by
+        refine hw.setData _ _ ?_
+        intro c hcm
+        rcases List.mem_cons.mp hcm with rfl | hcm
+        · exact cellOK_of_vok hv
+        · exact hw.data c hcm
+      obtain ⟨h1, h2, h3, h4, h5, h6, h7, h8, h9⟩ := applyWrap_spec fo rest (pushVal s v) (i + 1) hw1 (fun a h => ha a (by simp [h]))
+      refine ⟨h1, h2.trans ?_, h3, h4, h5, h6, h7, h8, h9⟩
+      rw [List.length_cons, List.replicate_succ']
+      simp [cellOf_plain (vok_plain hv), pushVal]
+
+theorem apply_succ (n : Nat) (ih : AllSpec n) (f : Val) (args : List Val) (s s' : St) (v : Val) (hw : WF s) (hpc : s.pc = -1)
+    (hvf : vok s.fns.length f = true) (ha : ∀ a ∈ args, vok s.fns.length a = true)
+    (hex : (applyFn (n + 1) f args).run s = (.ok v, s')) : Kept s s' ∧ vok s'.fns.length v = true := by
+  unfold VM.applyFn at hex
+  split at hex
+  · rename_i name
+    exact ih.builtin name args s s' v hw hpc ha hex
+  · rename_i fid
+    simp only [vok, decide_eq_true_eq] at hvf
+    rw [run_bind, run_capture] at hex
+    dsimp only at hex
+    rw [run_bind, run_modify] at hex
+    dsimp only at hex
+    rw [run_bind, run_get] at hex
+    dsimp only at hex
+    rw [run_bind, run_set] at hex
+    dsimp only at hex
+    rw [run_bind, run_get] at hex
+    dsimp only at hex
+    have hw1 : WF { s with pc := -2 } := hw.setPc _
+    obtain ⟨hw2, d2, f2, l2, li2, a2, c2, p2, su2⟩ := applyWrap_spec (fnOf { s with pc := -2 } fid) args { s with pc := -2 } 0 hw1 ha
+    generalize hs2 : (args.foldl (fun (p : St × Nat) v =>
+      if (fnOf { s with pc := -2 } fid).isLazyCallArg p.2 then
+        ({ p.1 with lazies := p.1.lazies ++ [({ e := .nilLit, stack := [], curfunc := 0, value := some v, isValue := true } : LazyObj)],
+                    data := some (.lazy p.1.lazies.length) :: p.1.data }, p.2 + 1)
+      else ({ p.1 with data := some v :: p.1.data }, p.2 + 1)) ({ s with pc := -2 }, 0)).1 = s2 at hex hw2 d2 f2 l2 li2 a2 c2 p2 su2
+    rw [run_bind, run_set] at hex
+    rcases hm : (do callFunction fid args.length; run n : M Val).run s2 with ⟨r, s4⟩
+    rw [hm] at hex
+    cases r with
+    | error e => cases e <;> simp only [run_bind, run_restore, run_throw] at hex <;> cases hex
+    | ok w =>
+      simp only [run_pure] at hex
+      cases hex
+      rw [run_bind] at hm
+      rcases hc : (callFunction fid args.length).run s2 with ⟨r1, s3⟩
+      rw [hc] at hm
+      cases r1 with
+      | error e => cases hm
+      | ok u =>
+        simp only at hm
+        have hid2 : fid < s2.fns.length := by rw [f2]; exact hvf.2
+        have hg := hw2.fns fid hvf.1 hid2
+        obtain ⟨c1, c2', c3, c4, c5, c6, c7, hw3, c9⟩ := callFunction_ok fid args.length s2 s3 (s.data.map cellOf) hw2 hg d2 hc
+        have hid3 : fid < s3.fns.length := by rw [c6]; exact hid2
+        obtain ⟨ann, hV, hact⟩ := actOK_of_good (hw3.fns fid hvf.1 hid3) hid3
+        have hfo : fnOf s3 fid = fnOf s2 fid := by simp only [VM.fnOf, c6]
+        let b : Base := ⟨s.data, s.linear, s.addr, s.curfunc, -2⟩
+        have hrun : Running b s3 ⟨fid, ann, s.data.map cellOf, s.linear.length, s.addr.length + 1⟩ [] := by
+          refine ⟨c1, by rw [c2']; exact Int.le_refl 0, ?_, hact _ _ _, ⟨rfl, rfl, by rw [c3, c2, p2, a2]⟩,
+            by rw [c4, li2]; exact List.suffix_refl _⟩
+          apply inv_entry _ _ hV
+          · show s3.pc.toNat = 0; rw [c2']; rfl
+          · show s3.data.map cellOf = List.replicate (fnOf s3 fid).params.length Cell.val ++ _
+            rw [c9, hfo]
+          · show s3.linear.length = _; rw [c4, li2]
+          · show s3.addr.length = _; rw [c3, a2]; simp
+        obtain ⟨hw4, he4, hv4, d4, l4, a4, cu4, p4, su4⟩ := ih.run b s3 s' _ v hw3 hrun rfl hm
+        have he : TExt s s' := (show TExt s s2 from TExt.same f2 l2).trans ((TExt.same c6 c7).trans he4)
+        exact ⟨⟨hw4, he, ⟨d4, l4, a4, cu4, by rw [p4, hpc], by rw [su4, c5, su2]⟩⟩, hv4⟩
+  · simp only [run_err] at hex; cases hex
+
+theorem mapArr_succ (n : Nat) (ih : AllSpec n) (f : Val) (r i k : Nat) (s s' : St) (vs : List Val) (hw : WF s) (hpc : s.pc = -1)
+    (hvf : vok s.fns.length f = true) (hex : (mapArr (n + 1) f r i k).run s = (.ok vs, s')) :
+    Kept s s' ∧ ∀ v ∈ vs, vok s'.fns.length v = true := by
+  unfold VM.mapArr at hex
+  split at hex
+  · simp only [run_pure] at hex
+    cases hex
+    exact ⟨Kept.refl hw, fun v hv => by cases hv⟩
+  · rw [run_bind, run_get] at hex
+    dsimp only at hex
+    rw [run_bind] at hex
+    rcases ha : (applyFn n f [(s.heap.get r).getD i .nil]).run s with ⟨rr, s1⟩
+    rw [ha] at hex
+    cases rr with
+    | error e => cases hex
+    | ok v =>
+      dsimp only at hex
+      rw [run_bind] at hex
+      rcases hm : (mapArr n f r (i + 1) k).run s1 with ⟨rr2, s2⟩
+      rw [hm] at hex
+      cases rr2 with
+      | error e => cases hex
+      | ok ws =>
+        simp only [run_pure] at hex
+        cases hex
+        have harg : ∀ a ∈ [(s.heap.get r).getD i Val.nil], vok s.fns.length a = true := by
+          intro a hav
+          simp only [List.mem_cons, List.mem_nil_iff, or_false] at hav
+          subst hav
+          rw [List.getD_eq_getElem?_getD]
+          cases hg : (s.heap.get r)[i]? with
+          | none => rfl
+          | some x => exact heap_get_vok hw r x (List.mem_of_getElem? hg)
+        obtain ⟨hk1, hv1⟩ := ih.apply f _ s s1 v hw hpc hvf harg ha
+        obtain ⟨hk2, hv2⟩ := ih.mapArr f r (i + 1) k s1 s' ws hk1.wf (hk1.same.pc.trans hpc) (kept_vok_mono hk1 hvf) hm
+        refine ⟨hk1.trans hk2, fun x hx => ?_⟩
+        rcases List.mem_cons.mp hx with rfl | hx
+        · exact kept_vok_mono hk2 hv1
+        · exact hv2 x hx
+
+theorem mapList_succ (n : Nat) (ih : AllSpec n) (f l : Val) (s s' : St) (v : Val) (hw : WF s) (hpc : s.pc = -1)
+    (hvf : vok s.fns.length f = true) (hvl : vok s.fns.length l = true) (hex : (mapList (n + 1) f l).run s = (.ok v, s')) :
+    Kept s s' ∧ vok s'.fns.length v = true := by
+  unfold VM.mapList at hex
+  split at hex
+  · simp only [run_pure] at hex
+    cases hex
+    exact ⟨Kept.refl hw, rfl⟩
+  · rename_i a b
+    simp only [vok, Bool.and_eq_true] at hvl
+    rw [run_bind] at hex
+    rcases ha : (applyFn n f [a]).run s with ⟨rr, s1⟩
+    rw [ha] at hex
+    cases rr with
+    | error e => cases hex
+    | ok w =>
+      dsimp only at hex
+      rw [run_bind] at hex
+      rcases hm : (mapList n f b).run s1 with ⟨rr2, s2⟩
+      rw [hm] at hex
+      cases rr2 with
+      | error e => cases hex
+      | ok t =>
+        simp only [run_pure] at hex
+        cases hex
+        obtain ⟨hk1, hv1⟩ := ih.apply f [a] s s1 w hw hpc hvf (fun x hx => by simp at hx; subst hx; exact hvl.1) ha
+        obtain ⟨hk2, hv2⟩ := ih.mapList f b s1 s' t hk1.wf (hk1.same.pc.trans hpc) (kept_vok_mono hk1 hvf)
+          (kept_vok_mono hk1 hvl.2) hm
+        refine ⟨hk1.trans hk2, ?_⟩
+        simp only [vok, Bool.and_eq_true]
+        exact ⟨kept_vok_mono hk2 hv1, hv2⟩
+  · simp only [run_err] at hex; cases hex
 
 end ZygoVerif.RunInv
